@@ -272,3 +272,7 @@ func V5Decode(patch []byte) (d DecodeView) {
 	}
 	return
 }
+
+// SetV5PackageLimit sets only the v5 package-level default copy limit (used to
+// check that a per-call limit of 0 really disables the check whatever the default is).
+func SetV5PackageLimit(l int64) { v5.AccumulatedCopySizeLimit = l }
